@@ -566,7 +566,12 @@ type internalRequest struct {
 }
 
 func (i *internalRequest) Execute(_ bool) {
-	panic("not implemented")
+	// Internal requests are never `EXECUTE` requests, so there is nothing to execute again. A server that answers one
+	// with an "unprepared" error (for a statement that happens to be cached) is misbehaving: fail the request.
+	select {
+	case i.err <- errors.New("unexpected unprepared response to an internal request"):
+	default:
+	}
 }
 
 func (i *internalRequest) Frame() interface{} {
